@@ -131,12 +131,24 @@ class SchulzZimm(Ref):
         self.mean = mn
         self.support = (1, math.inf)
         self._c = {}
+        # z <= 1 (Mw >= 2 Mn): the documented density does not vanish at 0 (it is 1/Mn for z = 1 and has a pole for z < 1), so its values on the integers
+        # M >= 1 do not sum to 1; the oracle is then the documented density on M >= 1, normalised (for z > 1 the sum is 1 to within the tolerances used)
+        self.norm = 1.0
+        if self.z <= 1:
+            self.norm = math.fsum(self._raw(i) for i in range(1, int(80 * mn / self.z) + 2000))
+
+    def _raw(self, m):
+        z, mn = self.z, self.mn
+        return math.exp((z + 1) * math.log(z) - math.lgamma(z + 1) + (z - 1) * math.log(m) - z * math.log(mn) - z * m / mn)
 
     def pmf(self, m):
         if m < 1 or m != int(m):
             return 0.0
-        z, mn = self.z, self.mn
-        return math.exp((z + 1) * math.log(z) - math.lgamma(z + 1) + (z - 1) * math.log(m) - z * math.log(mn) - z * m / mn)
+        return self._raw(m) / self.norm
+
+    def documented(self, m):
+        """the documented formula itself (what the clause 'equals the documented mass' refers to)"""
+        return self._raw(m) if m >= 1 and m == int(m) else 0.0
 
     def cdf(self, x):
         if x < 1:
@@ -175,7 +187,7 @@ class LogNormal(Ref):
 CASES = {
     "quick": [("gauss", (100.0, 20.0)), ("gauss", (5000.0, 50.0)), ("gauss", (60.0, 45.0)), ("uniform", (12, 72)), ("uniform", (500, 600)), ("uniform", (96, 97)),
               ("poisson", (65.0,)), ("poisson", (4.0,)), ("flory_schulz", (0.1,)), ("flory_schulz", (0.3,)), ("schulz_zimm", (120.0, 100.0)),
-              ("schulz_zimm", (700.0, 600.0)), ("log_normal", (50.0, 1.1)), ("log_normal", (300.0, 1.6))],
+              ("schulz_zimm", (700.0, 600.0)), ("schulz_zimm", (200.0, 100.0)), ("schulz_zimm", (300.0, 100.0)), ("log_normal", (50.0, 1.1)), ("log_normal", (300.0, 1.6))],
 }
 CASES["thorough"] = CASES["quick"] + [("gauss", (1.0, 0.05)), ("gauss", (1e4, 3e3)), ("uniform", (0, 5)), ("uniform", (1000, 5000)), ("poisson", (900.0,)),
                                       ("poisson", (0.7,)), ("flory_schulz", (0.6,)), ("flory_schulz", (0.08,)), ("schulz_zimm", (1500.0, 1400.0)),
